@@ -8,33 +8,58 @@ open PgVerif PgVerif.Model
 
 /-! ### JEntry bit fields -/
 
-theorem jeOffLen_mk (ty v : Nat) (f : Bool) (hv : v < 2 ^ 28) : jeOffLen (Spec.mkEntry ty f v) = v := by
-  unfold jeOffLen Spec.mkEntry
-  have := land_mask (ty * 0x10000000 + v + (if f then 0x80000000 else 0)) 28
-  simp only [show (2 : Nat) ^ 28 - 1 = 0x0FFFFFFF by decide] at this
-  rw [this]
-  cases f <;> simp <;> omega
+theorem land_0FFFFFFF (x : Nat) : x &&& 0x0FFFFFFF = x % 0x10000000 := by
+  have := land_mask x 28; simpa using this
+theorem land_80000000 (x : Nat) : x &&& 0x80000000 = (x / 0x80000000 % 2) * 0x80000000 := by
+  have := land_field x 1 31; simpa using this
+theorem land_70000000 (x : Nat) : x &&& 0x70000000 = (x / 0x10000000 % 8) * 0x10000000 := by
+  have := land_field x 3 28; simpa using this
 
-theorem jeHasOff_mk (ty v : Nat) (f : Bool) (hv : v < 2 ^ 28) (ht : ty < 8) : jeHasOff (Spec.mkEntry ty f v) = f := by
-  unfold jeHasOff Spec.mkEntry
-  have := land_field (ty * 0x10000000 + v + (if f then 0x80000000 else 0)) 1 31
-  simp only [show ((2 : Nat) ^ 1 - 1) * 2 ^ 31 = 0x80000000 by decide] at this
-  rw [this]
-  cases f
-  · have e : (ty * 0x10000000 + v + (if false = true then 0x80000000 else 0)) / 2 ^ 31 % 2 ^ 1 = 0 := by
-      simp; omega
+theorem jeOffLen_eq (je : Nat) : jeOffLen je = je % 0x10000000 := land_0FFFFFFF je
+
+theorem jeHasOff_eq (je : Nat) : jeHasOff je = (je / 0x80000000 % 2 == 1) := by
+  have h : jeHasOff je = (je / 0x80000000 % 2 * 0x80000000 != 0) := congrArg (· != 0) (land_80000000 je)
+  rw [h]
+  have : je / 0x80000000 % 2 < 2 := Nat.mod_lt _ (by decide)
+  rcases Nat.lt_or_ge (je / 0x80000000 % 2) 1 with h3 | h3
+  · have e : je / 0x80000000 % 2 = 0 := by omega
     rw [e]; rfl
-  · have e : (ty * 0x10000000 + v + (if true = true then 0x80000000 else 0)) / 2 ^ 31 % 2 ^ 1 = 1 := by
-      simp; omega
+  · have e : je / 0x80000000 % 2 = 1 := by omega
     rw [e]; rfl
 
-theorem jeType_mk (ty v : Nat) (f : Bool) (hv : v < 2 ^ 28) (ht : ty < 8) :
-    Spec.mkEntry ty f v &&& 0x70000000 = ty * 0x10000000 := by
+theorem mk_mod (ty v : Nat) (f : Bool) (hv : v < 0x10000000) : (Spec.mkEntry ty f v) % 0x10000000 = v := by
   unfold Spec.mkEntry
-  have := land_field (ty * 0x10000000 + v + (if f then 0x80000000 else 0)) 3 28
-  simp only [show ((2 : Nat) ^ 3 - 1) * 2 ^ 28 = 0x70000000 by decide] at this
-  rw [this]
-  cases f <;> simp <;> omega
+  cases f
+  · simp only [Bool.false_eq_true, if_false]; omega
+  · simp only [if_true]; omega
+
+theorem mk_hi (ty v : Nat) (f : Bool) (hv : v < 0x10000000) (ht : ty < 8) :
+    (Spec.mkEntry ty f v / 0x80000000 % 2 == 1) = f := by
+  unfold Spec.mkEntry
+  cases f
+  · have e : (ty * 0x10000000 + v + (if false = true then 0x80000000 else 0)) / 0x80000000 % 2 = 0 := by
+      simp only [Bool.false_eq_true, if_false]; omega
+    rw [e]; rfl
+  · have e : (ty * 0x10000000 + v + (if true = true then 0x80000000 else 0)) / 0x80000000 % 2 = 1 := by
+      simp only [if_true]; omega
+    rw [e]; rfl
+
+theorem mk_ty (ty v : Nat) (f : Bool) (hv : v < 0x10000000) (ht : ty < 8) :
+    Spec.mkEntry ty f v / 0x10000000 % 8 = ty := by
+  unfold Spec.mkEntry
+  cases f
+  · simp only [Bool.false_eq_true, if_false]; omega
+  · simp only [if_true]; omega
+
+theorem jeOffLen_mk (ty v : Nat) (f : Bool) (hv : v < 0x10000000) : jeOffLen (Spec.mkEntry ty f v) = v :=
+  (jeOffLen_eq _).trans (mk_mod ty v f hv)
+
+theorem jeHasOff_mk (ty v : Nat) (f : Bool) (hv : v < 0x10000000) (ht : ty < 8) : jeHasOff (Spec.mkEntry ty f v) = f :=
+  (jeHasOff_eq _).trans (mk_hi ty v f hv ht)
+
+theorem jeType_mk (ty v : Nat) (f : Bool) (hv : v < 0x10000000) (ht : ty < 8) :
+    Spec.mkEntry ty f v &&& 0x70000000 = ty * 0x10000000 :=
+  (land_70000000 _).trans (congrArg (· * 0x10000000) (mk_ty ty v f hv ht))
 
 /-! ### offsets: endOffset's backward scan + forward sum is the prefix sum, whatever the flag pattern -/
 
@@ -54,11 +79,18 @@ theorem pre_succ (lens : List Nat) (i : Nat) (h : i < lens.length) :
   simp only [Option.toList, List.sum_append, List.sum_cons, List.sum_nil, List.getD, Option.getD, Nat.add_zero,
     List.getElem?_eq_getElem h]
 
+theorem take_sum_le (lens : List Nat) (i : Nat) : (lens.take i).sum ≤ lens.sum := by
+  induction lens generalizing i with
+  | nil => simp
+  | cons x xs ih =>
+    cases i with
+    | zero => simp
+    | succ i => simp only [List.take_succ_cons, List.sum_cons]; have := ih i; omega
+
 theorem pre_le_total (lens : List Nat) (i : Nat) : pre lens i ≤ pre lens lens.length := by
   unfold pre
   rw [List.take_length]
-  conv => rhs; rw [← List.take_append_drop i lens]
-  simp
+  exact take_sum_le lens i
 
 theorem len_le_total (lens : List Nat) (i : Nat) (h : i < lens.length) : lens.getD i 0 ≤ pre lens lens.length := by
   have := pre_succ lens i h
@@ -75,9 +107,10 @@ theorem encE_length (lens tys : List Nat) (flags : Nat → Bool) : (encE lens ty
 
 section
 variable (lens tys : List Nat) (flags : Nat → Bool)
-variable (hsmall : pre lens lens.length < 2 ^ 28) (hty : ∀ i, tys.getD i 0 < 8)
+variable (hsmall : pre lens lens.length < 0x10000000) (hty : ∀ i, tys.getD i 0 < 8)
 include hsmall hty
 
+omit hty in
 theorem offLen_encE (i : Nat) (h : i < lens.length) :
     jeOffLen ((encE lens tys flags).getD i 0) = if flags i then pre lens (i+1) else lens.getD i 0 := by
   rw [getD_encE lens tys flags i h]
@@ -96,6 +129,7 @@ theorem hasOff_encE (i : Nat) (h : i < lens.length) :
   · simp only [Bool.false_eq_true, if_false]; exact jeHasOff_mk _ _ _ (by omega) (hty i)
   · simp only [if_true]; exact jeHasOff_mk _ _ _ (by omega) (hty i)
 
+omit hty in
 /-- forward sum over a run of unflagged entries is the difference of prefix sums -/
 theorem sumFrom_unflagged (a n : Nat)
     (hb : a + n ≤ lens.length) (hu : ∀ j, a ≤ j → j < a + n → flags j = false) :
@@ -105,7 +139,7 @@ theorem sumFrom_unflagged (a n : Nat)
   | succ n ih =>
     have ha : a < lens.length := by omega
     have := ih (a+1) (by omega) (fun j h1 h2 => hu j (by omega) (by omega))
-    simp only [sumFrom, offLen_encE lens tys flags hsmall hty a ha, hu a (Nat.le_refl a) (by omega)]
+    simp only [sumFrom, offLen_encE lens tys flags hsmall a ha, hu a (Nat.le_refl a) (by omega)]
     rw [pre_succ lens a ha] at this
     simp at this ⊢
     rw [show a + (n + 1) = a + 1 + n by omega]
@@ -119,15 +153,15 @@ theorem scan_spec (idx : Nat) (hidx : idx < lens.length)
   induction k with
   | zero =>
     simp only [scan]
-    have := sumFrom_unflagged lens tys flags hsmall hty 0 (idx+1) (by omega) (fun j _ h2 => hu j (by omega) (by omega))
+    have := sumFrom_unflagged lens tys flags hsmall 0 (idx+1) (by omega) (fun j _ h2 => hu j (by omega) (by omega))
     simpa [pre] using this
   | succ k ih =>
     have hkl : k < lens.length := by omega
-    simp only [scan, hasOff_encE lens tys flags hsmall hty k hkl, offLen_encE lens tys flags hsmall hty k hkl]
+    simp only [scan, hasOff_encE lens tys flags hsmall hty k hkl, offLen_encE lens tys flags hsmall k hkl]
     cases hf : flags k with
     | true =>
       simp only [if_true]
-      have := sumFrom_unflagged lens tys flags hsmall hty (k+1) (idx - k) (by omega)
+      have := sumFrom_unflagged lens tys flags hsmall (k+1) (idx - k) (by omega)
         (fun j h1 h2 => hu j (by omega) (by omega))
       rw [show k + 1 + (idx - k) = idx + 1 by omega] at this
       show pre lens (k + 1) + sumFrom (encE lens tys flags) (k + 1) (idx - k) = pre lens (idx + 1)
@@ -152,11 +186,307 @@ theorem entryOffLenPure_encE (idx base : Nat) (hidx : idx < lens.length) :
     · rw [if_pos h0, endOffset_encE lens tys flags hsmall hty (idx-1) (by omega), show idx - 1 + 1 = idx by omega]
     · have : idx = 0 := by omega
       subst this; simp [pre]
-  simp only [hstart, hasOff_encE lens tys flags hsmall hty idx hidx, offLen_encE lens tys flags hsmall hty idx hidx]
+  simp only [hstart, hasOff_encE lens tys flags hsmall hty idx hidx, offLen_encE lens tys flags hsmall idx hidx]
   cases flags idx with
   | true => simp [pre_succ lens idx hidx]; omega
   | false => simp
 
 end
+
+/-! ### totality: no index, no slice expression of the parser can fail, whatever the bytes -/
+
+theorem align4_ge (off : Nat) : off ≤ align4 off := by
+  unfold align4
+  have := andNot_mask (off + 3) 2
+  simp only [show (2 : Nat) ^ 2 - 1 = 3 from rfl, show (2 : Nat) ^ 2 = 4 from rfl] at this
+  rw [this]; omega
+
+theorem readEntries_total (data : Bytes) (n i : Nat) (h : 4 + (i + n) * 4 ≤ data.length) :
+    ∃ es, readEntries data n i = .ok es ∧ es.length = n := by
+  induction n generalizing i with
+  | zero => exact ⟨[], rfl, rfl⟩
+  | succ n ih =>
+    obtain ⟨es, hes, hl⟩ := ih (i + 1) (by omega)
+    refine ⟨rd 4 (data.drop (4 + i * 4)) :: es, ?_, by simp [hl]⟩
+    unfold readEntries
+    rw [uN_ok 4 data (4 + i * 4) (by omega)]
+    simp only [ok_bind, hes, pure_eq_ok]
+
+theorem entryOffLen_ok (es : List Nat) (idx base : Nat) (h : idx < es.length) :
+    entryOffLen es idx base = .ok (entryOffLenPure es idx base) := by
+  unfold entryOffLen; rw [if_pos h]; rfl
+
+/-- decodeJEntry cannot fault, provided the recursive parser cannot fault on any strictly shorter slice;
+`off > 0` holds at every call (`off ≥ dataStart ≥ 8`) and makes every child slice strictly shorter -/
+theorem decodeJEntry_total (rec : Bytes → M JV) (data : Bytes) (off : Nat) (length : Int) (je : Nat)
+    (hoff : 0 < off) (hrec : ∀ d : Bytes, d.length < data.length → ∃ r, rec d = .ok r) :
+    ∃ r, decodeJEntry rec data off length je = .ok r := by
+  have hal := align4_ge off
+  unfold decodeJEntry
+  simp only [pure_eq_ok]
+  split
+  · split
+    · rename_i hg
+      rw [slice_ok data off (off + length.toNat) hg.2 (by omega)]
+      exact ⟨_, rfl⟩
+    · exact ⟨_, rfl⟩
+  · split
+    · split
+      · rename_i hg
+        have h1 : align4 off - off < length.toNat := by have := hg.1; omega
+        rw [slice_ok data (align4 off) (align4 off + length.toNat - (align4 off - off)) hg.2 (by omega)]
+        simp only [ok_bind]
+        obtain ⟨r, hr⟩ := decodeJNumeric_total
+          (List.drop (align4 off) (List.take (align4 off + length.toNat - (align4 off - off)) data))
+        rw [hr]; exact ⟨_, rfl⟩
+      · exact ⟨_, rfl⟩
+    · split
+      · split
+        · rename_i hg
+          have h1 : align4 off - off < length.toNat := by have := hg.1; omega
+          rw [slice_ok data (align4 off) (align4 off + length.toNat - (align4 off - off)) hg.2 (by omega)]
+          simp only [ok_bind]
+          apply hrec
+          simp only [List.length_drop, List.length_take]
+          have := hg.2
+          omega
+        · exact ⟨_, rfl⟩
+      · split
+        · exact ⟨_, rfl⟩
+        · split
+          · exact ⟨_, rfl⟩
+          · split <;> exact ⟨_, rfl⟩
+
+theorem getEntry_ok (entries : List Nat) (i : Nat) (h : i < entries.length) :
+    getEntry entries i = .ok entries[i] := by
+  unfold getEntry; rw [List.getElem?_eq_getElem h]; rfl
+
+theorem parseArrayLoop_total (rec : Bytes → M JV) (data : Bytes) (entries : List Nat) (dataStart : Nat)
+    (hds : 0 < dataStart) (hrec : ∀ d : Bytes, d.length < data.length → ∃ r, rec d = .ok r)
+    (n i : Nat) (h : i + n ≤ entries.length) :
+    ∃ xs, parseArrayLoop rec data entries dataStart n i = .ok xs := by
+  induction n generalizing i with
+  | zero => exact ⟨[], rfl⟩
+  | succ n ih =>
+    obtain ⟨rest, hrest⟩ := ih (i + 1) (by omega)
+    unfold parseArrayLoop
+    rw [entryOffLen_ok entries i 0 (by omega)]
+    simp only [ok_bind]
+    rw [getEntry_ok entries i (by omega)]
+    simp only [ok_bind]
+    obtain ⟨v, hv⟩ := decodeJEntry_total rec data (dataStart + (entryOffLenPure entries i 0).1)
+      (entryOffLenPure entries i 0).2 entries[i] (by omega) hrec
+    rw [hv]
+    simp only [ok_bind, hrest, pure_eq_ok]
+    exact ⟨_, rfl⟩
+
+theorem parseObjectLoop_total (rec : Bytes → M JV) (data : Bytes) (entries : List Nat) (dataStart count : Nat)
+    (hds : 0 < dataStart) (hrec : ∀ d : Bytes, d.length < data.length → ∃ r, rec d = .ok r)
+    (n i : Nat) (h : count + i + n ≤ entries.length) :
+    ∃ kvs, parseObjectLoop rec data entries dataStart count n i = .ok kvs := by
+  induction n generalizing i with
+  | zero => exact ⟨[], rfl⟩
+  | succ n ih =>
+    obtain ⟨rest, hrest⟩ := ih (i + 1) (by omega)
+    unfold parseObjectLoop
+    rw [entryOffLen_ok entries i 0 (by omega)]
+    simp only [ok_bind]
+    have hkey : ∃ key, (if (entryOffLenPure entries i 0).2 ≥ 0 ∧
+          dataStart + (entryOffLenPure entries i 0).1 + (entryOffLenPure entries i 0).2.toNat ≤ data.length then
+        slice data (dataStart + (entryOffLenPure entries i 0).1)
+          (dataStart + (entryOffLenPure entries i 0).1 + (entryOffLenPure entries i 0).2.toNat)
+        else pure [] : M Bytes) = .ok key := by
+      split
+      · rename_i hg
+        rw [slice_ok _ _ _ hg.2 (by omega)]; exact ⟨_, rfl⟩
+      · exact ⟨_, rfl⟩
+    obtain ⟨key, hkey⟩ := hkey
+    rw [hkey]
+    simp only [ok_bind]
+    rw [entryOffLen_ok entries (count + i) 0 (by omega)]
+    simp only [ok_bind]
+    rw [getEntry_ok entries (count + i) (by omega)]
+    simp only [ok_bind]
+    obtain ⟨v, hv⟩ := decodeJEntry_total rec data (dataStart + (entryOffLenPure entries (count + i) 0).1)
+      (entryOffLenPure entries (count + i) 0).2 entries[count + i] (by omega) hrec
+    rw [hv]
+    simp only [ok_bind, hrest, pure_eq_ok]
+    exact ⟨_, rfl⟩
+
+/-- the body of ParseJSONB cannot fault if the recursive call cannot fault on strictly shorter input -/
+theorem parseContainer_total (rec : Bytes → M JV) (data : Bytes)
+    (hrec : ∀ d : Bytes, d.length < data.length → ∃ r, rec d = .ok r) :
+    ∃ r, parseContainer rec data = .ok r := by
+  unfold parseContainer
+  by_cases hl : data.length < 4
+  · simp [hl]
+  · simp (disch := omega) only [hl, if_false, uN_ok, ok_bind, pure_eq_ok]
+    generalize rd 4 (List.drop 0 data) = header
+    generalize hcnt : header &&& 0x0FFFFFFF = count
+    by_cases hbad : ((!header &&& 0x20000000 != 0 && !header &&& 0x40000000 != 0) || decide (count > 10000)) = true
+    · rw [if_pos hbad]; exact ⟨_, rfl⟩
+    · rw [if_neg hbad]
+      by_cases hc0 : (count == 0) = true
+      · rw [if_pos hc0]; exact ⟨_, rfl⟩
+      · rw [if_neg hc0]
+        have hc : count ≠ 0 := by simpa using hc0
+        by_cases hobj : (header &&& 0x20000000 != 0) = true
+        · simp only [hobj, if_true]
+          split
+          · exact ⟨_, rfl⟩
+          · rename_i hsz
+            obtain ⟨es, hes, hesl⟩ := readEntries_total data (count * 2) 0 (by omega)
+            rw [hes]
+            simp only [ok_bind]
+            split
+            · exact ⟨_, rfl⟩
+            · obtain ⟨kvs, hk⟩ := parseObjectLoop_total rec data es
+                (4 + count * 2 * 4) count (by omega) hrec count 0 (by omega)
+              rw [hk]; exact ⟨_, rfl⟩
+        · simp only [hobj, Bool.false_eq_true, if_false]
+          split
+          · exact ⟨_, rfl⟩
+          · rename_i hsz
+            obtain ⟨es, hes, hesl⟩ := readEntries_total data count 0 (by omega)
+            rw [hes]
+            simp only [ok_bind]
+            split
+            · exact ⟨_, rfl⟩
+            · obtain ⟨xs, hx⟩ := parseArrayLoop_total rec data es
+                (4 + count * 4) (by omega) hrec count 0 (by omega)
+              rw [hx]
+              simp only [ok_bind]
+              split
+              · split <;> exact ⟨_, rfl⟩
+              · exact ⟨_, rfl⟩
+
+/-- with fuel above the length of the input, ParseJSONB returns (never a fault, never out of fuel) -/
+theorem parseJSONBFuel_total (fuel : Nat) : ∀ data : Bytes, data.length < fuel →
+    ∃ r, parseJSONBFuel fuel data = .ok r := by
+  induction fuel with
+  | zero => intro data h; omega
+  | succ fuel ih =>
+    intro data hlen
+    exact parseContainer_total (parseJSONBFuel fuel) data (fun d hd => ih d (by omega))
+
+/-! ### the result does not depend on surplus fuel -/
+
+theorem bind_congr' {α β} (x : M α) (f g : α → M β) (h : ∀ a, f a = g a) : (x >>= f) = (x >>= g) := by
+  have : f = g := funext h
+  rw [this]
+
+theorem decodeJEntry_congr (rec1 rec2 : Bytes → M JV) (data : Bytes) (off : Nat) (length : Int) (je : Nat)
+    (hoff : 0 < off) (h : ∀ d : Bytes, d.length < data.length → rec1 d = rec2 d) :
+    decodeJEntry rec1 data off length je = decodeJEntry rec2 data off length je := by
+  have hal := align4_ge off
+  unfold decodeJEntry
+  by_cases t0 : ((je &&& 0x70000000) == 0x00000000) = true
+  · simp only [t0, if_true]
+  · by_cases t1 : ((je &&& 0x70000000) == 0x10000000) = true
+    · simp only [t0, t1, if_true, Bool.false_eq_true, if_false]
+    · by_cases t5 : ((je &&& 0x70000000) == 0x50000000) = true
+      · simp only [t0, t1, t5, if_true, Bool.false_eq_true, if_false]
+        by_cases hg : ((align4 off - off : Nat) : Int) < length ∧ align4 off + length.toNat - (align4 off - off) ≤ data.length
+        · rw [if_pos hg, if_pos hg]
+          have h1 : align4 off - off < length.toNat := by have := hg.1; omega
+          rw [slice_ok data (align4 off) (align4 off + length.toNat - (align4 off - off)) hg.2 (by omega)]
+          simp only [ok_bind]
+          apply h
+          simp only [List.length_drop, List.length_take]
+          have := hg.2
+          omega
+        · rw [if_neg hg, if_neg hg]
+      · simp only [t0, t1, t5, Bool.false_eq_true, if_false]
+
+theorem parseArrayLoop_congr (rec1 rec2 : Bytes → M JV) (data : Bytes) (entries : List Nat) (dataStart : Nat)
+    (hds : 0 < dataStart) (h : ∀ d : Bytes, d.length < data.length → rec1 d = rec2 d) (n i : Nat) :
+    parseArrayLoop rec1 data entries dataStart n i = parseArrayLoop rec2 data entries dataStart n i := by
+  induction n generalizing i with
+  | zero => rfl
+  | succ n ih =>
+    unfold parseArrayLoop
+    apply bind_congr'; intro p
+    apply bind_congr'; intro je
+    rw [decodeJEntry_congr rec1 rec2 data _ _ je (by omega) h]
+    apply bind_congr'; intro v
+    rw [ih]
+
+theorem parseObjectLoop_congr (rec1 rec2 : Bytes → M JV) (data : Bytes) (entries : List Nat) (dataStart count : Nat)
+    (hds : 0 < dataStart) (h : ∀ d : Bytes, d.length < data.length → rec1 d = rec2 d) (n i : Nat) :
+    parseObjectLoop rec1 data entries dataStart count n i = parseObjectLoop rec2 data entries dataStart count n i := by
+  induction n generalizing i with
+  | zero => rfl
+  | succ n ih =>
+    unfold parseObjectLoop
+    apply bind_congr'; intro p
+    apply bind_congr'; intro key
+    apply bind_congr'; intro q
+    apply bind_congr'; intro je
+    rw [decodeJEntry_congr rec1 rec2 data _ _ je (by omega) h]
+    apply bind_congr'; intro v
+    rw [ih]
+
+theorem parseContainer_congr (rec1 rec2 : Bytes → M JV) (data : Bytes)
+    (h : ∀ d : Bytes, d.length < data.length → rec1 d = rec2 d) :
+    parseContainer rec1 data = parseContainer rec2 data := by
+  unfold parseContainer
+  by_cases hl : data.length < 4
+  · simp only [hl, if_true]
+  · simp only [hl, if_false]
+    apply bind_congr'; intro header
+    generalize hcnt : header &&& 0x0FFFFFFF = count
+    by_cases hbad : ((!header &&& 0x20000000 != 0 && !header &&& 0x40000000 != 0) || decide (count > 10000)) = true
+    · simp only [hbad, if_true]
+    · rw [if_neg hbad, if_neg hbad]
+      by_cases hc0 : (count == 0) = true
+      · simp only [hc0, if_true]
+      · rw [if_neg hc0, if_neg hc0]
+        have hc : count ≠ 0 := by simpa using hc0
+        by_cases hobj : (header &&& 0x20000000 != 0) = true
+        · simp only [hobj, if_true]
+          by_cases hsz : 4 + count * 2 * 4 > data.length
+          · simp only [hsz, if_true]
+          · simp only [hsz, if_false]
+            apply bind_congr'; intro entries
+            rw [parseObjectLoop_congr rec1 rec2 data entries _ count (by omega) h]
+        · simp only [hobj, Bool.false_eq_true, if_false]
+          by_cases hsz : 4 + count * 4 > data.length
+          · simp only [hsz, if_true]
+          · simp only [hsz, if_false]
+            apply bind_congr'; intro entries
+            rw [parseArrayLoop_congr rec1 rec2 data entries _ (by omega) h]
+
+/-- any two amounts of fuel above the input length give the same result -/
+theorem parseJSONBFuel_fuel (f1 : Nat) : ∀ (f2 : Nat) (data : Bytes), data.length < f1 → data.length < f2 →
+    parseJSONBFuel f1 data = parseJSONBFuel f2 data := by
+  induction f1 with
+  | zero => intro f2 data h; omega
+  | succ f1 ih =>
+    intro f2 data h1 h2
+    cases f2 with
+    | zero => omega
+    | succ f2 =>
+      exact parseContainer_congr _ _ data (fun d hd => ih f2 d (by omega) (by omega))
+
+theorem parseJSONB_total (data : Bytes) : ∃ r, parseJSONB data = .ok r :=
+  parseJSONBFuel_total (data.length + 1) data (by omega)
+
+theorem decodeTypeJSONB_total (data : Bytes) : ∃ r, decodeTypeJSONB data = .ok r := by
+  unfold decodeTypeJSONB
+  simp only [pure_eq_ok]
+  split
+  · exact ⟨_, rfl⟩
+  · obtain ⟨v, hv⟩ := parseJSONB_total data
+    rw [hv]
+    simp only [ok_bind]
+    split
+    · exact ⟨_, rfl⟩
+    · split
+      · rename_i h8
+        have h8' : data.length = 8 := by simpa using h8
+        rw [uN_ok 4 data 0 (by omega), uN_ok 4 data 4 (by omega)]
+        simp only [ok_bind]
+        split <;> exact ⟨_, rfl⟩
+      · exact ⟨_, rfl⟩
 
 end PgVerif.Proofs
